@@ -13,7 +13,7 @@ NT_RULE = {
 
 def fenv(v, target, stats, known, tmpdir):
     e = dict(os.environ)
-    e["ASAN_OPTIONS"] = "detect_leaks=0:handle_abort=1:allocator_may_return_null=1:symbolize=1:print_summary=1:detect_stack_use_after_return=0"
+    e["ASAN_OPTIONS"] = "detect_leaks=0:handle_abort=1:allocator_may_return_null=1:symbolize=1:print_summary=1:detect_stack_use_after_return=0:malloc_context_size=5"
     e["UBSAN_OPTIONS"] = "print_stacktrace=1:halt_on_error=1"
     e["ASAN_SYMBOLIZER_PATH"] = shutil.which("llvm-symbolizer") or shutil.which("llvm-symbolizer-14") or ""
     e["FZ_TARGET"] = target
